@@ -36,7 +36,8 @@ fn gen_taglist(rng: &mut Rng, p_retry: usize) -> Vec<String> {
         .collect()
 }
 
-pub fn gen_resolve(rng: &mut Rng) -> Case {
+pub fn gen_resolve(rng: &mut Rng, idx: usize) -> Case {
+    let _ = idx;
     let p = *rng.pick(&[0usize, 2, 5, 8]);
     let sc_tags = gen_taglist(rng, p);
     let in_rule = rng.chance(1, 2);
